@@ -623,19 +623,23 @@ func init() {
 							x.Outcome = "no encoding of exactly that size"
 							return
 						}
+						// three of them in a row: the limit is per message, not per connection
 						vsched.GoNamed("client", func() {
-							switch {
-							case s.pc != nil:
-								s.pc.Post([]Pkt{m})
-							case s.ws != nil:
-								s.ws.SendPkt(m)
-							default:
-								s.wc.SendPkt(m)
+							for i := 0; i < 3; i++ {
+								switch {
+								case s.pc != nil:
+									r := s.pc.Post([]Pkt{m})
+									r.Wait()
+								case s.ws != nil:
+									s.ws.SendPkt(m)
+								default:
+									s.wc.SendPkt(m)
+								}
 							}
 						})
 						x.Run(x.Now() + time.Second)
-						if got := s.rec.Messages(); !pktsEqual(got, []Pkt{m}) {
-							x.Fail("inbound[%s exact-max-payload]: a message whose wire form has exactly the announced maxPayload (%d bytes) was not delivered: received %s; session %s %v", kind, max, fmtPkts(got), s.rec.Sock.ReadyState(), s.rec.CloseReasons())
+						if got := s.rec.Messages(); !pktsEqual(got, []Pkt{m, m, m}) {
+							x.Fail("inbound[%s exact-max-payload]: three messages whose wire form has exactly the announced maxPayload (%d bytes) each were not all delivered: received %s; session %s %v", kind, max, fmtPkts(got), s.rec.Sock.ReadyState(), s.rec.CloseReasons())
 						}
 					})
 				}
